@@ -16,7 +16,10 @@ its real `NonnegMean` object.
 Oracle (theorem `RiskLimit.audit_risk_limit_run`): if some assertion of contest c is false on the population — its
 data values average at most 1/2 — the fraction of orders on which the audit is EVER reported complete is at most c's
 risk limit.  Oracle C09: the audit is reported complete at draw k only if every assertion's p-value, recomputed from
-its own test on its own data, is at most its contest's risk limit.
+its own test on its own data, is at most its contest's risk limit.  Oracle `oracle_outcome` (theorems
+`RiskLimit.plurality_outcome_polling_risk_limit` / `plurality_outcome_comparison_risk_limit`, C09): if the reported outcome
+of a plurality contest is wrong on the manual records -- decided from the case's candidates and winners, not from the
+assertions the real constructor built -- the fraction of orders that ever complete is at most that contest's limit.
 """
 import contextlib, copy, io, json, math
 from fractions import Fraction as F
@@ -301,7 +304,9 @@ def unconfirmed_contests(case, desc=None):
         bad = [(w, l) for w in W for l in L if marks(w) <= marks(l) + lost]
         if bad:
             w, l = bad[0]
-            out.append((cid, F(d["limit"]), w, l, (marks(w), marks(l), lost)))
+            # finding F30: two (winner, loser) pairs with the same dict key `winr + " v " + losr`
+            clash = len({x + " v " + y for x in W for y in L}) < len(W) * len(L)
+            out.append((cid, F(d["limit"]), w, l, (marks(w), marks(l), lost), clash))
     return out
 
 
@@ -316,9 +321,10 @@ def oracle_outcome(case, ir):
         return None
     f = ir["first"]
     frac = F(sum(1 for x in f if x is not None), len(f))
-    for cid, lim, w, l, (mw, ml, lost) in un:
+    for cid, lim, w, l, (mw, ml, lost), clash in un:
         if frac > lim:
-            return {"what": f"the reported outcome of contest {cid} is wrong on the manual records (reported winner {w}: "
+            return {**({"finding": "F30:assertion-name-clash"} if clash else {}),
+                    "what": f"the reported outcome of contest {cid} is wrong on the manual records (reported winner {w}: "
                             f"{mw} marks, reported loser {l}: {ml} marks, {lost} records scored 0) but the audit is "
                             f"reported complete on {frac} = {float(frac):.4g} of the {len(f)} equally likely draw orders, "
                             f"more than the contest's risk limit {lim} (is there an assertion for every (winner, loser) "
@@ -434,6 +440,19 @@ def k2(at, cv, kw):
             "cvrs": [card(i, m) for i, m in enumerate(cv)], "mvrs": [card(i, m) for i, m in enumerate(K2_TRUE)]}
 
 
+def clash_case():
+    X, Y = "a v b", "b v c"
+    true = [[X], [X], [X], [Y], [Y], ["a"]]
+
+    def card(i, ms):
+        return mk_card(i, {"K": {m: 1 for m in ms}})
+    return {"audit_type": "POLLING", "contests": [{"id": "K", "risk_limit": "3/5", "candidates": ["a", X, Y, "c"],
+                                                   "winner": ["a", X], "n_winners": 2, "test": "alpha_mart",
+                                                   "estim": "fixed_alternative_mean", "bet": None,
+                                                   "test_kwargs": {"eta": 0.75}}],
+            "cvrs": [card(i, m) for i, m in enumerate(true)], "mvrs": [card(i, m) for i, m in enumerate(true)]}
+
+
 def corpus():
     def one(at, cv, mv, test="alpha_mart", estim=None, bet=None, kw=None, lim="1/5"):
         n = len(cv)
@@ -455,6 +474,10 @@ def corpus():
         # records (a 3, b 2, c 2); polling: complete on 36 of the 120 orders; comparison (the CVRs say a 3, b 3, c 1): 48
         k2("POLLING", K2_TRUE, {"eta": 0.75}),
         k2("CARD_COMPARISON", K2_REPORTED, {"eta": 1.0}),
+        # finding F30 (theorem RiskLimit.pair_name_clash): candidates `a`, `a v b`, `b v c`, `c`, reported winners `a`,
+        # `a v b`: the pairs (a, b v c) and (a v b, c) both get the key `a v b v c`, no assertion compares `a` with
+        # `b v c`; on the cards `b v c` has 2 marks and `a` has 1, the audit completes in every order
+        clash_case(),
     ]
 
 
